@@ -275,13 +275,6 @@ theorem lookups_accept (b : Bytes) (extType : Nat) : ∀ (lps : List Nat) (numL 
                   simp only [hf, Bool.false_eq_true, if_false, Outcome.ok.injEq] at hm1
                   exact hm1.symm
                 refine ⟨l :: ls', ?_, ?_, ?_⟩
-                rotate_left
-                · skip
-                · intro l' hl'
-                  rw [List.mem_cons] at hl'
-                  rcases hl' with rfl | hl'
-                  · rw [e2, e4]; exact hmfs0
-                  · exact hmz l' hl'
                 · simp only [readLookups, hhdr]
                   rw [if_neg (by omega), u16s_rdAtN a3]
                   simp only [hm1, hsr, hfin, hls']
@@ -293,6 +286,11 @@ theorem lookups_accept (b : Bytes) (extType : Nat) : ∀ (lps : List Nat) (numL 
                     simp only [toSpec, e1, e2, e4, e6, SpecLookup.mk.injEq, true_and]
                     subst e3 e5 hm3
                     simp
+                · intro l' hl'
+                  rw [List.mem_cons] at hl'
+                  rcases hl' with rfl | hl'
+                  · rw [e2, e4]; exact hmfs0
+                  · exact hmz l' hl'
 
 /-- **acceptance**: what the specification reader finds within the budget, the model of the Go reader
 accepts - and returns the same lookups -/
